@@ -59,6 +59,8 @@ func runC04(r *run) {
 		genC04Errors(rg, emit)
 		genC04Excluded(rg, emit)
 		genC04Tags(rg, emit)
+		genC04Wrapped(rg, emit)
+		genC04Options(rg, emit)
 	}, execC04)
 	r.finish(nil)
 }
@@ -97,6 +99,46 @@ func genC04Errors(rg *rng, emit func(caseT)) {
 			// extra: the failing construct, so that reported positions can be judged against the source
 			args = append(args, "-", "-", hx("{{ "+f+" }}"))
 			emit(caseT{"history", args})
+		}
+	}
+}
+
+// a construct that fails after the tag around it has already collected (or written) some of its
+// body: what the failed execution left behind in the node must not reach the next execution
+func genC04Wrapped(rg *rng, emit func(caseT)) {
+	wraps := [][2]string{{"{% filter upper %}", "{% endfilter %}"}, {"{% filter lower|capfirst %}", "{% endfilter %}"}, {"{% spaceless %}", "{% endspaceless %}"}, {"{% ifchanged %}", "{% endifchanged %}"},
+		{"{% with q=1 %}", "{% endwith %}"}, {"{% for q in nums %}", "{% endfor %}"}, {"{% macro zm() %}", "{% endmacro %}{{ zm() }}{{ zm() }}"}, {"{% block zb %}", "{% endblock %}"},
+		{"{% autoescape off %}", "{% endautoescape %}"}, {"{% if b1 or not b1 %}", "{% endif %}"}, {"{% filter upper %}{% spaceless %}", "{% endspaceless %}{% endfilter %}"},
+		{"{% for q in nums %}{% ifchanged %}", "{% endifchanged %}{% endfor %}"}}
+	fails := []string{`1 / z`, `s1|slice:"1"`, `nosuchfn()`}
+	for i, wr := range wraps {
+		for k, f := range fails {
+			src := "head " + wr[0] + "<b> total </b> {% if sel == 1 %}{{ " + f + " }}{% endif %} <i> tail </i>" + wr[1] + " end"
+			g := newProgGen(rg.fork(uint64(7500 + i*10 + k)))
+			a := g.context(0)
+			mk := func(sel int) gctx {
+				var c gctx
+				for _, e := range a {
+					if e.key != "sel" && e.key != "z" {
+						c = append(c, e)
+					}
+				}
+				return append(c, ctxEntry{"sel", gInt(sel)}, ctxEntry{"z", gInt(0)})
+			}
+			one, none := mk(1), mk(0)
+			hist := []gctx{none, one, none, one, one, none}
+			if k == 1 {
+				hist = []gctx{one, none, none, one, none}
+			}
+			parts := make([]string, len(hist))
+			for j, h := range hist {
+				parts[j] = h.descr()
+			}
+			for pad := 0; pad < 5; pad += 2 { // the length of the source selects the entry points
+				args := (&world{}).args(src+strings.Repeat(" ", pad), nil)
+				args[1] = strings.Join(parts, "~")
+				emit(caseT{"history", args})
+			}
 		}
 	}
 }
@@ -163,6 +205,10 @@ func execVariant(tpl *pongo2.Template, ctx pongo2.Context, k int) (out string, e
 func tokensEqual(a, b []pongo2.Token) bool { return reflect.DeepEqual(a, b) }
 
 func execC04(r *run, c caseT) {
+	if c.op == "optswitch" {
+		execOptSwitch(r, c)
+		return
+	}
 	wa := append([]string{}, c.args...)
 	wa[1] = "-"
 	w, src, _ := worldFromArgs(wa)
@@ -327,4 +373,48 @@ func genC04Tags(rg *rng, emit func(caseT)) {
 			emit(caseT{"gohistory", args})
 		}
 	}
+}
+
+// the block options of the template changed between executions: each execution gives what a
+// template compiled afresh gives under the options in force at that moment, once they have been
+// switched on (the rewrite of the text is not undone by switching an option off again)
+func genC04Options(rg *rng, emit func(caseT)) {
+	for i, src := range []string{"a\n{% if b1 %}\n  x\n  {% endif %}\nz", "{% for q in nums %}\n {{ q }}\n\t{% endfor %}\n", "  {% with q=1 %}\n{{ q }}{% endwith %}\n\n", "t{# c #}\n  {% if b1 %}\n{% endif %}"} {
+		for order := 0; order < 6; order++ {
+			emit(caseT{"optswitch", []string{hx(src), fmt.Sprint(order), fmt.Sprint(i)}})
+		}
+	}
+}
+
+func execOptSwitch(r *run, c caseT) {
+	src := unhx(c.args[0])
+	var order int
+	fmt.Sscanf(c.args[1], "%d", &order)
+	g := newProgGen(newRng(99))
+	ctx := g.context(0).goContext()
+	// settings in the order they are switched on (options only ever get switched on here)
+	seqs := [][][2]bool{{{false, false}, {true, false}, {true, true}}, {{false, false}, {false, true}, {true, true}}, {{false, false}, {true, true}}, {{true, false}, {true, true}}, {{false, true}, {true, true}}, {{false, false}, {false, false}, {true, false}}}
+	seq := seqs[order%len(seqs)]
+	tpl, err := pongo2.FromString(src)
+	must(err)
+	var obs []string
+	id := -1
+	for step, o := range seq {
+		tpl.Options.TrimBlocks, tpl.Options.LStripBlocks = o[0], o[1]
+		got, _, _ := execVariant(tpl, ctx, step+order)
+		fresh, ferr := pongo2.FromString(src)
+		must(ferr)
+		fresh.Options.TrimBlocks, fresh.Options.LStripBlocks = o[0], o[1]
+		want, _ := fresh.Execute(ctx)
+		obs = append(obs, got)
+		if got != want && id < 0 {
+			id = r.emit(c.op, c.args, "optswitch")
+			r.reject(id, "after an earlier execution, switching a block option on does not give what a freshly compiled template gives under that option", map[string]any{"template": src, "step": step + 1,
+				"trim_blocks": o[0], "lstrip_blocks": o[1], "observed": got, "fresh": want})
+		}
+	}
+	if id < 0 {
+		r.emit(c.op, c.args, "optswitch")
+	}
+	r.nontrivial("optswitch" + c.args[1] + c.args[2])
 }
